@@ -18,7 +18,8 @@ from vk.ddmin import minimise_text
 
 LEVEL = 'exploration'
 RULE = ('product workload: (preceding construct) x (layout between it and the slash) x (following text), each '
-        'embedded in a statement context, plus generated programs and the corpus; a case = one text; '
+        'embedded in a statement context, the same statements as the body of a function standing in ten kinds of '
+        'bracketed operand position, plus generated programs and the corpus; a case = one text; '
         'non-trivial = the reference parser accepts it and it has at least one token starting with "/" '
         '(outside comments and strings).')
 ASSUMPTIONS = ['refjs decides the lexical goal from the grammar position (InputElementRegExp exactly where a '
